@@ -224,6 +224,19 @@ def e2e_cases(pid, tier, rng):
             for dv in (1, 2, 3, 4):
                 if e % dv == 0 and e // dv >= 64:
                     bss.append(e // dv)
+        # ... and to where TIMESTAMPS end: the last byte of a head line's timestamp is the last byte of a block (and one
+        # byte either side), for the first dated lines beyond offset 64
+        nts = 0
+        for i in range(len(lay.lines)):
+            if lay.dated[i] and lay.beg[i] + lay.tslen >= 64 and len(lay.lines[i]) > lay.tslen + 2:
+                e = lay.beg[i] + lay.tslen
+                for dv in (1, 2, 3):
+                    for adj in (0, -1, 1):
+                        if (e + adj) % dv == 0 and (e + adj) // dv >= 64:
+                            bss.append((e + adj) // dv)
+                nts += 1
+                if nts >= 3:
+                    break
         if pid == "C12" or tier == "thorough":
             bss += [65, 127, 128, 129, 2 * Bfocus, max(64, lay.size - 1), max(64, lay.size), lay.size + 1, 8096, 8097,
                     0xFFFFFF]
@@ -254,8 +267,12 @@ def e2e_cases(pid, tier, rng):
                 else:
                     files["f%d.tar" % fi] = gen.tar_bytes([(name, lay.data)])
                     argv = "f%d.tar" % fi
-                case = Case(files, ["--color", "never", "--blocksz", str(B), argv], lay.printed(),
-                            note={"blocksz": B, "container": cont, "file": fi}, timeout=60)
+                # colour: never (most runs); not given (stdout is a pipe: the colour printers write plain bytes); always
+                # (escape sequences removed before comparing)
+                colour = rng.choice(["never", "never", "never", "auto", "always"])
+                copt = {"never": ["--color", "never"], "auto": [], "always": ["--color", "always"]}[colour]
+                case = Case(files, copt + ["--blocksz", str(B), argv], lay.printed(),
+                            note={"blocksz": B, "container": cont, "file": fi, "colour": colour}, timeout=60)
                 cases.append((case, lay, B, cont))
     # boundary family: the first message(s) end exactly on a block end, a multi-block line starts the next block
     for B in ([64, 100, 128] if tier == "quick" else [64, 65, 100, 128, 200, 256, 1000, 4096, 8096, 9000]):
@@ -332,6 +349,9 @@ def run(pid, tier, seed):
                 rep.violation("e2e:crash", "rc=%s at --blocksz %d (%s): %r" % (rr.rc, B, cont, rr.err[-200:]),
                               case.replay_record(rr))
                 continue
+            if case.note.get("colour") == "always":
+                from . import c13
+                rr.out = c13.SGR.sub(b"", rr.out)
             if rr.out == case.expected:
                 if len(e2e_samples) < 2 and crossing:
                     e2e_samples.append({"blocksz": B, "container": cont, "size": lay.size, "lines": len(lay.lines),
